@@ -63,7 +63,31 @@ def single_routes(prio, pgn, src, dst, data: bytes, rng, settings=None):
 LONG_LIVED: dict = {}
 
 
-def framewise(kind, prio, pgn, src, dst, frames, tpad=0, long_lived=None):
+CHATTER = {"claims": 0}
+
+
+def _chatter(dec, kind, src, dst, k):
+    """Other devices announce themselves between two frames of the message: first claims and take-overs by another NAME, from
+    addresses that resemble the source or the destination of the transfer (never from the source itself)."""
+    from .. import hist
+    for a_ in hist.related_addresses(src, dst)[:4]:
+        name = hist.claim_name(5000 + 17 * k + a_, 1851 if k % 2 else 229).to_bytes(8, "little")
+        ident = wire.can_id(6, 60928, a_, 255)
+        try:
+            if kind == "ebyte":
+                dec.decode_tcp(wire.ebyte_frame(ident, name))
+            elif kind == "usb":
+                dec.decode_usb(wire.usb_frame(ident, name))
+            elif kind == "yd":
+                dec.decode_yacht_devices_string(wire.yd_line(ident, name).strip())
+            else:
+                dec.decode_basic_string(wire.plain_line(6, 60928, a_, 255, name))
+        except Exception:  # noqa: BLE001
+            pass
+        CHATTER["claims"] += 1
+
+
+def framewise(kind, prio, pgn, src, dst, frames, tpad=0, long_lived=None, chatter=False):
     ident = wire.can_id(prio, pgn, src, dst)
     pdu1 = ((pgn >> 8) & 0xFF) < 240
     d_eff = dst if pdu1 else 255
@@ -74,6 +98,8 @@ def framewise(kind, prio, pgn, src, dst, frames, tpad=0, long_lived=None):
         dec = NMEA2000Decoder() if long_lived is None else LONG_LIVED.setdefault(long_lived, NMEA2000Decoder())
         r = None
         for k, f in enumerate(frames):
+            if chatter:
+                _chatter(dec, kind, src, dst, k)
             if kind == "ebyte":
                 r = dec.decode_tcp(wire.ebyte_frame(ident, f, pad=tpad))
             elif kind == "usb":
@@ -223,6 +249,8 @@ def run_shard(spec, acc):
                     "usb_frames": framewise("usb", prio, d.pgn, src, dst, frames),
                     "yd_frames": framewise("yd", prio, d.pgn, src, dst, frames),
                     "plain_frames": framewise("plain", prio, d.pgn, src, dst, frames),
+                    # the bus is not silent while a message is in transit: other devices claim and re-claim addresses
+                    "ebyte_frames_between_claims": framewise("ebyte", prio, d.pgn, src, dst, frames, chatter=True),
                     # transport-level padding after the declared data length (length nibble / byte / field governs)
                     "ebyte_frames_tpad": framewise("ebyte", prio, d.pgn, src, dst, frames, 0xFF),
                     "usb_frames_tpad": framewise("usb", prio, d.pgn, src, dst, frames, 0xFF),
@@ -244,6 +272,9 @@ def run_shard(spec, acc):
                          ("mixed_plain_whole", lambda: LONG_LIVED.setdefault("mixed", D()).decode_basic_string(wire.plain_line(prio, d.pgn, src, d_eff, pb), already_combined=True)),
                          ("mixed_usb_frames", framewise("usb", prio, d.pgn, src, dst, frames, long_lived="mixed")),
                          ("mixed_plain_frames", framewise("plain", prio, d.pgn, src, dst, frames, long_lived="mixed"))]
+                if c % 3 == 0:
+                    for k_ in ("usb", "yd", "plain"):
+                        routes[f"{k_}_frames_between_claims"] = framewise(k_, prio, d.pgn, src, dst, frames, chatter=True)
                 rot = c % len(mixed)
                 for n_, fn_ in mixed[rot:] + mixed[:rot]:
                     routes[n_] = fn_
@@ -253,6 +284,8 @@ def run_shard(spec, acc):
                 msgs = compare(outs, acc, w)
                 acc.case((d.pgn, prio, src, dst, pb, pad) if msgs >= 2 else None)
                 acc.count("fast_packet_cases")
+                acc.count("address_claims_between_frames", CHATTER["claims"])
+                CHATTER["claims"] = 0
                 acc.cover("padding", pad)
             acc.cover("definitions", d.id)
             if acc.evaluations % 401 == 0:
@@ -291,6 +324,8 @@ def literal_cases(spec, acc):
                 msgs = compare(outs, acc, w)
                 acc.case((pgn, prio, src, dst, pb) if msgs >= 2 else None)
                 acc.count("fast_packet_cases")
+                acc.count("address_claims_between_frames", CHATTER["claims"])
+                CHATTER["claims"] = 0
                 acc.count("cases_carrying_a_harvested_literal")
 
 
